@@ -16,12 +16,12 @@ BASE_NOTE = (
 
 CLAIMS = {
     "C01": ("dataflow over the dispatcher CFG + who-may-call", "Pairing request<->response, notification silence, error-code mapping, single writer, loop survival and ordering by construction are decided for every path of the server loop, the dispatcher and the connection senders (hence for every message sequence); JSON-serialisability only for definite non-JSON constructs. Not decided: content of the handlers' results."),
-    "C16": ("def-use + template matching on framing sites, CFG path search in the receiver", "Writer half decided completely (announced length = UTF-8 byte length of the body written, frame layout, UTF-8 + flush, binary std streams); reader half structurally (every header line reaches the Content-Length parser, body read only with a known length, bytes cut before decoding); URI quote/unquote pairing. Not decided: behaviour of the underlying buffered stream under partial reads."),
+    "C16": ("def-use + template matching on framing sites, CFG path search in the receiver", "Writer half decided completely (announced length = UTF-8 byte length of the body written, frame layout, UTF-8 + flush, binary std streams); reader half structurally (every header line reaches the Content-Length parser, body read only with a known length, bytes cut before decoding); URI quote/unquote pairing; byte counts and character counts are never compared, subtracted or requested against each other on the reading side. Not decided: behaviour of the underlying buffered stream under partial reads."),
 }
 
 CLAIMS.update({
     "C17": ("package-wide effect inventory (import-resolved references) + call-graph reachability + dominating guards", "The complete syntactic inventory of evaluation/process/file-write/network primitives of the package and its reachability from the server entry points is decided for all inputs (inputs do not change which primitives the code can call): no dynamic evaluation with computed arguments anywhere, no reachable file write except the debug log under its option, network/process effects only behind disable_autoupdate with constant targets. Not decided: effects inside third-party libraries (json5, packaging) or through reflection."),
-    "C19": ("table agreement between argparse declarations and configuration loaders + handler coverage", "Option tables of cli() and the three loaders agree (every effective option loadable, key = attribute, default = current command-line value, set-valued options wrapped), derived state recomputed, consumers after the load, the loader's try covers OSError/ValueError/TypeError/AttributeError with a message and no re-raise. Not decided: that an option has the same downstream effect on both channels; partial application when a loader fails midway."),
+    "C19": ("table agreement between argparse declarations and configuration loaders + handler coverage", "Option tables of cli() and the three loaders agree (every effective option loadable, key = attribute, default = current command-line value, set-valued options wrapped), derived state recomputed, consumers after the load, the loader's try covers OSError/ValueError/TypeError/AttributeError with a message and no re-raise; the stored value depends on the current value only through the .get default (no merging), and the loaders read the parsed file itself, not a value-filtered copy. Not decided: that an option has the same downstream effect on both channels; partial application when a loader fails midway."),
 })
 
 CLAIMS.update({
@@ -33,8 +33,8 @@ CLAIMS.update({
 })
 
 CLAIMS.update({
-    "C02": ("regex-language enumeration of the line splitter, def-use/shape matching of the splice, dominators in the edit routine", "Decides: the splitter's language is exactly {LF, CRLF, CR} with CRLF consumed as one, on both ingestion paths; trailing-newline fix-up agrees with the splitter; every buffer mutation keeps contents_pp/nLines in step and is dominated by the hash reset; changes applied forwards, once, abort on failure; splice provenance (prefix ends at range start, suffix starts at range end, strict copy condition). Not decided: the splice arithmetic for every range (value-level)."),
-    "C03": ("interprocedural dominating-facts analysis (nullability, non-emptiness), def-use taint into regex sinks, regex-tree ambiguity query, loop-progress check on per-loop CFGs", "Decides four mechanisms by which text kills this parser: parser state that is None outside constructs is never dereferenced unguarded (with lock-step twin, establishing calls, caller obligations, result-conditioned summaries); constant end-subscripts on possibly empty text are guarded; document/option text reaches no pattern unescaped and no replacement template unescaped, no pattern has ambiguous nested unbounded repetition; every while loop of the indexing code has a progress statement on every cycle. Not decided: absence of every other exception, concrete time bounds."),
+    "C02": ("regex-language enumeration of the line splitter, def-use/shape matching of the splice, dominators in the edit routine", "Decides: the splitter's language is exactly {LF, CRLF, CR} with CRLF consumed as one, on both ingestion paths; trailing-newline fix-up agrees with the splitter; every buffer mutation keeps contents_pp/nLines in step and is dominated by the hash reset; changes applied forwards, once, abort on failure; splice provenance (prefix ends at range start, suffix starts at range end, strict copy condition); every entry-exit path of the didChange handler applies the content changes or posts a message (no change notification is dropped silently). Not decided: the splice arithmetic for every range (value-level)."),
+    "C03": ("interprocedural dominating-facts analysis (nullability, non-emptiness), def-use taint into regex sinks, regex-tree ambiguity query, loop-progress check on per-loop CFGs", "Decides four mechanisms by which text kills this parser: parser state that is None outside constructs is never dereferenced unguarded (with lock-step twin, establishing calls, caller obligations, result-conditioned summaries); constant end-subscripts on possibly empty text are guarded; document/option text reaches no pattern unescaped and no replacement template unescaped, no pattern has ambiguous nested unbounded repetition; every while loop of the indexing code has a progress statement on every cycle; a call result that is unpacked, subscripted, iterated or dereferenced on the spot comes from functions that return a value on every path. Not decided: absence of every other exception, concrete time bounds."),
 })
 
 CLAIMS.update({
@@ -44,11 +44,11 @@ CLAIMS.update({
 
 CLAIMS.update({
     "C10": ("interprocedural write-effect summaries (roots self/param/global, freshness, return aliasing) + CFG dominance in the resolvers and the re-index routine", "Decides which state can survive re-indexing at all: no read-only request (nor computing diagnostics) writes a field of the server, a file, an AST or an entity; every resolver that looks a name up resets or reassigns its link on every path and link containers are emptied before refilling; no link is cached outside the re-link path; old top-level entries are pruned before the new AST is installed, a failed parse touches nothing, closing a deleted file prunes; parsing does not mutate the option objects it is given. Not decided: equality with a fresh server over all histories."),
-    "C15": ("effect summary of the pool worker + dominance/order checks of the phase structure + sibling comparison", "Decides the phase structure that makes the start-up index schedule-independent: the worker is a static function whose transitive writes touch only fresh objects and the per-process keyword-order global; join precedes the first result.get(); the merge loop resolves nothing across files; includes for all files, version bump, then links for all files - at start-up and on every open/save; both indexing paths construct and parse files with the same arguments. Not decided: order-dependence inside the resolvers, pickling fidelity, unordered sources of the file list."),
+    "C15": ("effect summary of the pool worker + dominance/order checks of the phase structure + sibling comparison", "Decides the phase structure that makes the start-up index schedule-independent: the worker is a static function whose transitive writes touch only fresh objects and the per-process keyword-order global; join precedes the first result.get(); the merge loop resolves nothing across files; includes for all files, version bump, then links for all files - at start-up and on every open/save; both indexing paths construct and parse files with the same arguments; the include and link calls are unconditional inside the whole-workspace loops; a derived type forces its parent's inheritance on every path before copying the parent's members. Not decided: order-dependence inside the resolvers, pickling fidelity, unordered sources of the file list."),
 })
 
 CLAIMS.update({
-    "C07": ("def-use obligations along the diagnostic pipeline, CFG path check per constructed diagnostic, constant folding of severities, write-effect summary of get_diagnostics", "Decides the error discipline of the diagnostic pipeline: every function that builds diagnostics is reachable from the aggregator, each per-scope checker's result and each callee-returned diagnostic is added, scope list and none-scope are both visited, end errors and parse errors are returned, both parts are merged and built, the list is published unchanged under the document's URI on every non-error path; no constructed diagnostic can reach the end of its function unappended; severities are 1..3; computing diagnostics writes no persistent state. Not decided: silence on all valid programs, presence at every seeding position (what the checkers find)."),
+    "C07": ("def-use obligations along the diagnostic pipeline, CFG path check per constructed diagnostic, constant folding of severities, write-effect summary of get_diagnostics", "Decides the error discipline of the diagnostic pipeline: every function that builds diagnostics is reachable from the aggregator, each per-scope checker's result and each callee-returned diagnostic is added, scope list and none-scope are both visited, end errors and parse errors are returned, both parts are merged and built, the list is published unchanged under the document's URI on every non-error path; no constructed diagnostic can reach the end of its function unappended; severities are 1..3; computing diagnostics writes no persistent state; a related location becomes a URI only when its path exists (declarations of intrinsic modules have none); nothing created before the scope loop is handed to a per-scope checker that both writes and reads it. Not decided: silence on all valid programs, presence at every seeding position (what the checkers find)."),
 })
 
 CLAIMS.update({
@@ -69,11 +69,11 @@ CLAIMS.update({
 })
 
 CLAIMS.update({
-    "C09": ("class-set (protocol) analysis of result objects narrowed by dominating isinstance / get_type() facts, nullability of dict.get results and link fields, override signature agreement, format-string and sign-test queries", "Decides, for the nine position-based handlers and the helpers they hand objects to: every attribute read on an object that came out of get_definition / find_in_scope / the candidate lists exists for every class the object can still have at that point (class sets from constructors, narrowed by isinstance and get_type() comparisons, with each class's possible get_type() values read from its code and the bundled intrinsic tables), or AttributeError is absorbed; dict.get results, nullable link fields and file-less intrinsic ASTs are tested before use (also when handed to a function that dereferences its parameter); every method call fits every remaining class's override; no computed text is used as a format string; a not-found column never reaches a range builder without a sign test; a position outside the document yields None through get_line / get_line_prefix and handlers touch the line only after that test. Not decided: absence of other exceptions in text helpers (index arithmetic in get_paren_level, get_var_stack), that every returned position lies inside the target document."),
+    "C09": ("class-set (protocol) analysis of result objects narrowed by dominating isinstance / get_type() facts, nullability of dict.get results and link fields, override signature agreement, format-string and sign-test queries", "Decides, for the nine position-based handlers and the helpers they hand objects to: every attribute read on an object that came out of get_definition / find_in_scope / the candidate lists exists for every class the object can still have at that point (class sets from constructors, narrowed by isinstance and get_type() comparisons, with each class's possible get_type() values read from its code and the bundled intrinsic tables), or AttributeError is absorbed; dict.get results, nullable link fields and file-less intrinsic ASTs are tested before use (also when handed to a function that dereferences its parameter); every method call fits every remaining class's override; no computed text is used as a format string; a not-found column never reaches a range builder without a sign test; a position outside the document yields None through get_line / get_line_prefix and handlers touch the line only after that test; immediately used call results are never None; an object built on a referenced file's tree does not take its line from the referring statement (one known finding: INCLUDE). Not decided: absence of other exceptions in text helpers (index arithmetic in get_paren_level, get_var_stack), that every returned position lies inside the target document."),
 })
 
 CLAIMS.update({
-    "C11": ("table agreement between the attribute patterns (regex-tree alternatives), the id table, the argument-keeping set and the bundled completion lists; typestate of the pending documentation block on the CFG; backward slice from the hover return values to the entity's fields", "Decides: every attribute the declaration patterns recognise has an id, argument-carrying attributes keep their argument, constant keys exist, every attribute the server's own completion lists offer is recognised by the declaration parser (an unrecognised one silently drops itself and all later attributes); a pending `!>` block is attached by both entity producers and reset on every path afterwards, the forward flag selects between parking and attaching, the parser's buffer is emptied after every hand-over; documentation is never used as a format template; the hover text of a variable depends on desc, kind, keywords, keyword_info, name and param_val and its documentation on its own doc_str, procedures list arg_objs in declared order through each argument's own hover, type hover depends on name/inherit/abstract. Not decided: kind/len extraction, attribute order, active-parameter computation, which entity a doc block belongs to. One known finding (CODIMENSION) is listed in known_findings.json."),
+    "C11": ("table agreement between the attribute patterns (regex-tree alternatives), the id table, the argument-keeping set and the bundled completion lists; typestate of the pending documentation block on the CFG; backward slice from the hover return values to the entity's fields", "Decides: every attribute the declaration patterns recognise has an id, argument-carrying attributes keep their argument, constant keys exist, every attribute the server's own completion lists offer is recognised by the declaration parser (an unrecognised one silently drops itself and all later attributes); a pending `!>` block is attached by both entity producers and reset on every path afterwards, the forward flag selects between parking and attaching, the parser's buffer is emptied after every hand-over; documentation is never used as a format template; the hover text of a variable depends on desc, kind, keywords, keyword_info, name and param_val and its documentation on its own doc_str, procedures list arg_objs in declared order through each argument's own hover, type hover depends on name/inherit/abstract; a container that an entity method changes in place is created anew for every entity built in a loop. Not decided: kind/len extraction, attribute order, active-parameter computation, which entity a doc block belongs to. One known finding (CODIMENSION) is listed in known_findings.json."),
 })
 
 NA_REASON = "check under construction in this round (rules designed in DESIGN.md section 3, not yet implemented); will move to checks once its rules run"
